@@ -39,10 +39,11 @@ def plan_digest(engine, plan):
     st = Stats()
     v = engine.execute(plan, st)
     e = st.export()
-    e.pop('slowest', None)
-    for x in v:
-        x.pop('replan', None)
-    return canon.digest([v, e])
+    # counters and distinct sets (for C11: yield points, switches, the switch-trace
+    # digests, i.e. the exact interleavings) and the violation signatures.  Not the
+    # free-text samples: three yatiml messages enumerate a set of classes in
+    # address order (handled by the oracles through token multisets).
+    return canon.digest([[x['signature'] for x in v], e['counters'], e['distinct']])
 
 
 def digests(engine_name, plans):
